@@ -89,7 +89,7 @@ class Ctx:
             if kf['id'] not in [k['id'] for k in self.known]:
                 self.known.append(kf)
             return False
-        d = mkdirs(os.path.join(VERIF, 'evidence', 'replay'))
+        d = mkdirs(os.path.join(VERIF, 'evidence', 'replay') if REPO == '/repo' else os.path.join(self.work, 'replay'))
         path = os.path.join(d, '%s-%d.json' % (self.prop, len(self.violations) + 1))
         with open(path, 'w') as f:
             json.dump({'property': self.prop, 'what': what, 'witness': witness, 'seed': self.seed,
